@@ -1636,5 +1636,398 @@ Section Ask.
     unfold L1D.ask. cbn [fst snd]. repeat split; try reflexivity;
       destruct (fold_tell_pending_frame (fst (ask_points s n)) s) as [Hd Hp]; [exact Hd | apply Hp | apply Hp].
   Qed.
+
+  (* ================= wf from the structural invariant of reachable states ================= *)
+  (* [wf_allp] (the sorted merge of evaluated and pending points IS nbc) follows
+     from sortedness and membership, so [wf] is implied by: lo<hi; keys of data,
+     pend and nbc strictly sorted; nbc = data keys + pend as sets; all points
+     inside the bounds; keys of losc = pairs nbc; mgrx = sx. *)
+  Lemma merge_spec : forall fuel a b,
+    length a + length b <= fuel -> StronglySorted lt a -> StronglySorted lt b ->
+    StronglySorted lt (merge_sorted fuel a b) /\
+    forall x, In x (merge_sorted fuel a b) <-> In x a \/ In x b.
+  Proof.
+    induction fuel as [|f IH]; intros a b Hlen Sa Sb.
+    - destruct a, b; cbn in Hlen; try lia. cbn. split; [constructor | intros x; tauto].
+    - cbn [L1D.merge_sorted]. destruct a as [|x a']; [split; [exact Sb | intros z; cbn [In]; tauto]|].
+      destruct b as [|y b']; [split; [exact Sa | intros z; cbn [In]; tauto]|].
+      inversion Sa as [|? ? Sa' Fa]; subst. inversion Sb as [|? ? Sb' Fb]; subst.
+      rewrite Forall_forall in Fa, Fb. cbn [length] in Hlen.
+      destruct (ltb x y) eqn:Exy.
+      + destruct (IH a' (y :: b')) as [S1 M1]; [cbn [length]; lia | exact Sa' | exact Sb |].
+        split.
+        * constructor; [exact S1|]. apply Forall_forall. intros z Hz. apply M1 in Hz.
+          destruct Hz as [Hz|[<-|Hz]]; [apply Fa; exact Hz | exact Exy | eapply lt_trans; [exact Exy | apply Fb; exact Hz]].
+        * intros z. cbn [In]. rewrite M1. cbn [In]. tauto.
+      + destruct (eqb x y) eqn:Eq.
+        * apply (eqb_eq OL) in Eq. subst y.
+          destruct (IH a' b') as [S1 M1]; [lia | exact Sa' | exact Sb' |].
+          split.
+          -- constructor; [exact S1|]. apply Forall_forall. intros z Hz. apply M1 in Hz.
+             destruct Hz as [Hz|Hz]; [apply Fa | apply Fb]; exact Hz.
+          -- intros z. cbn [In]. rewrite M1. tauto.
+        * assert (Hyx : lt y x).
+          { unfold lt. destruct (ltb y x) eqn:Eyx; [reflexivity|].
+            pose proof (ltb_total OL _ _ Exy Eyx) as C. subst. rewrite eqb_refl in Eq. discriminate. }
+          destruct (IH (x :: a') b') as [S1 M1]; [cbn [length]; lia | exact Sa | exact Sb' |].
+          split.
+          -- constructor; [exact S1|]. apply Forall_forall. intros z Hz. apply M1 in Hz.
+             destruct Hz as [[<-|Hz]|Hz]; [exact Hyx | eapply lt_trans; [exact Hyx | apply Fa; exact Hz] | apply Fb; exact Hz].
+          -- intros z. cbn [In]. rewrite M1. cbn [In]. tauto.
+  Qed.
+
+  Lemma sorted_ext_eq (l1 : list num) : forall l2,
+    StronglySorted lt l1 -> StronglySorted lt l2 -> (forall x, In x l1 <-> In x l2) -> l1 = l2.
+  Proof.
+    induction l1 as [|x1 l1 IH]; intros l2 S1 S2 Hm.
+    - destruct l2 as [|x2 l2]; [reflexivity|]. exfalso. apply (Hm x2). left; reflexivity.
+    - destruct l2 as [|x2 l2]; [exfalso; apply (Hm x1); left; reflexivity|].
+      inversion S1 as [|? ? S1' F1]; subst. inversion S2 as [|? ? S2' F2]; subst.
+      rewrite Forall_forall in F1, F2.
+      assert (E : x1 = x2).
+      { destruct (proj1 (Hm x1) (or_introl eq_refl)) as [E|H1]; [symmetry; exact E|].
+        destruct (proj2 (Hm x2) (or_introl eq_refl)) as [E|H2]; [exact E|].
+        exfalso. apply (lt_irrefl x1). eapply lt_trans; [apply F1; exact H2 | apply F2; exact H1]. }
+      subst x2. f_equal. apply IH; [exact S1' | exact S2' |].
+      intros z. split; intros Hz.
+      + destruct (proj1 (Hm z) (or_intror Hz)) as [E|H]; [|exact H].
+        subst z. exfalso. exact (lt_irrefl x1 (F1 x1 Hz)).
+      + destruct (proj2 (Hm z) (or_intror Hz)) as [E|H]; [|exact H].
+        subst z. exfalso. exact (lt_irrefl x1 (F2 x1 Hz)).
+  Qed.
+
+  Theorem wf_from_structure s :
+    lt (lo P) (hi P) ->
+    StronglySorted lt (keys s) -> StronglySorted lt (pend s) -> StronglySorted lt (nbc s) ->
+    (forall x, In x (nbc s) <-> In x (keys s) \/ In x (pend s)) ->
+    (forall x, In x (nbc s) -> le (lo P) x /\ le x (hi P)) ->
+    map fst (losc s) = pairs (nbc s) ->
+    mgrx s = sx s ->
+    wf s.
+  Proof.
+    intros H1 Sk Sp Sn Hm Hb Hk Hx. constructor; try assumption.
+    unfold allp. destruct (merge_spec (length (data s) + length (pend s)) (keys s) (pend s)) as [S M];
+      [unfold keys; rewrite map_length; lia | exact Sk | exact Sp |].
+    apply sorted_ext_eq; [exact S | exact Sn |]. intros x. rewrite M, Hm. tauto.
+  Qed.
   End WithOrder.
 End Ask.
+
+(* ================================================================== *)
+(* Part 3: an exact instance -- canonical rationals extended by +-inf   *)
+(* ================================================================== *)
+From Coq Require Import ZArith QArith Qcanon Qround.
+Close Scope Q_scope.
+
+Inductive xq : Type := Fin (q : Qc) | PInf | NInf.
+
+Definition xadd (x y : xq) : xq :=
+  match x, y with
+  | Fin a, Fin b => Fin (a + b)%Qc
+  | PInf, _ | Fin _, PInf => PInf
+  | NInf, _ | Fin _, NInf => NInf
+  end.
+Definition xsub (x y : xq) : xq :=
+  match x, y with
+  | Fin a, Fin b => Fin (a - b)%Qc
+  | PInf, _ | Fin _, NInf => PInf
+  | NInf, _ | Fin _, PInf => NInf
+  end.
+(* on infinite operands only the cases used by the model matter (inf * n, inf / n
+   for positive n); signs are not tracked there *)
+Definition xmul (x y : xq) : xq :=
+  match x, y with
+  | Fin a, Fin b => Fin (a * b)%Qc
+  | PInf, _ | Fin _, PInf => PInf
+  | NInf, _ | Fin _, NInf => NInf
+  end.
+Definition xdiv (x y : xq) : xq :=
+  match x, y with
+  | Fin a, Fin b => Fin (a / b)%Qc
+  | PInf, _ => PInf
+  | NInf, _ => NInf
+  | Fin _, _ => Fin 0%Qc
+  end.
+Definition xltb (x y : xq) : bool :=
+  match x, y with
+  | Fin a, Fin b => if Qclt_le_dec a b then true else false
+  | NInf, Fin _ | NInf, PInf | Fin _, PInf => true
+  | _, _ => false
+  end.
+Definition xeqb (x y : xq) : bool :=
+  match x, y with
+  | Fin a, Fin b => if Qc_eq_dec a b then true else false
+  | PInf, PInf | NInf, NInf => true
+  | _, _ => false
+  end.
+Definition xis_inf (x : xq) : bool := match x with Fin _ => false | _ => true end.
+Definition xis_nan (x : xq) : bool := false.
+Definition qn (n : nat) : Qc := Q2Qc (inject_Z (Z.of_nat n)).
+Definition xof_nat (n : nat) : xq := Fin (qn n).
+(* int(l * 1e12 + 0.5) / 1e12 on exact rationals *)
+Definition round12q (q : Qc) : Qc :=
+  Q2Qc (inject_Z (Qfloor (q * (1000000000000 # 1) + (1 # 2))%Q) * (1 # 1000000000000))%Q.
+Definition xround12 (x : xq) : xq := match x with Fin q => Fin (round12q q) | _ => x end.
+
+Lemma xOrderLaws : OrderLaws xq xltb xeqb.
+Proof.
+  constructor.
+  - intros [a| |] [b| |]; cbn; try (split; congruence).
+    destruct (Qc_eq_dec a b); split; congruence.
+  - intros [a| |]; cbn; try reflexivity.
+    destruct (Qclt_le_dec a a) as [H|H]; [|reflexivity]. exfalso. exact (Qclt_not_eq _ _ H eq_refl).
+  - intros [a| |] [b| |] [c| |]; cbn; try congruence.
+    destruct (Qclt_le_dec a b), (Qclt_le_dec b c), (Qclt_le_dec a c); try congruence.
+    exfalso. apply (Qcle_not_lt _ _ q1). eapply Qclt_trans; eassumption.
+  - intros [a| |] [b| |]; cbn; try congruence.
+    destruct (Qclt_le_dec a b), (Qclt_le_dec b a); try congruence.
+    intros _ _. f_equal. apply Qcle_antisym; assumption.
+Qed.
+
+(* ---------------- arithmetic on Qc ---------------- *)
+Local Open Scope Qc_scope.
+
+Lemma Q2Qc_lt x y : (x < y)%Q -> Q2Qc x < Q2Qc y.
+Proof. intros H. unfold Qclt, Q2Qc; cbn [this]. rewrite !Qred_correct. exact H. Qed.
+
+Lemma qn_lt i j : (i < j)%nat -> qn i < qn j.
+Proof. intros H. apply Q2Qc_lt. rewrite <- Zlt_Qlt. lia. Qed.
+
+Lemma qn_0 : qn 0 = 0.
+Proof. reflexivity. Qed.
+
+Lemma qn_1 : qn 1 = 1.
+Proof. apply Qc_is_canon. reflexivity. Qed.
+
+Lemma qn_pos n : (1 <= n)%nat -> 0 < qn n.
+Proof. intros H. rewrite <- qn_0. apply qn_lt. lia. Qed.
+
+Lemma qn_ne0 n : (1 <= n)%nat -> qn n <> 0.
+Proof. intros H C. pose proof (qn_pos n H) as H'. rewrite C in H'. exact (Qclt_not_eq _ _ H' eq_refl). Qed.
+
+Lemma Qclt_irrefl x : ~ x < x.
+Proof. intros H. exact (Qclt_not_eq _ _ H eq_refl). Qed.
+
+Lemma pos_of_mul s k d : s * k = d -> 0 < k -> 0 < d -> 0 < s.
+Proof.
+  intros E Hk Hd. destruct (Qclt_le_dec 0 s) as [H|H]; [exact H|].
+  exfalso. apply (Qcle_not_lt (s * k) 0); [|rewrite E; exact Hd].
+  replace 0 with (0 * k) by ring. apply Qcmult_le_compat_r; [exact H | apply Qclt_le_weak; exact Hk].
+Qed.
+
+Lemma nonneg_of_mul s k d : s * k = d -> 0 < k -> 0 <= d -> 0 <= s.
+Proof.
+  intros E Hk Hd. apply (Qcmult_lt_0_le_reg_r 0 s k Hk). rewrite E. replace (0 * k) with 0 by ring. exact Hd.
+Qed.
+
+Lemma Qcplus_lt_l a p q : p < q -> a + p < a + q.
+Proof.
+  intros H. apply Qclt_minus_iff. apply Qclt_minus_iff in H.
+  replace (a + q + - (a + p)) with (q + - p) by ring. exact H.
+Qed.
+
+Lemma Qcplus_lt_r a p q : p < q -> p + a < q + a.
+Proof. intros H. rewrite (Qcplus_comm p a), (Qcplus_comm q a). apply Qcplus_lt_l; exact H. Qed.
+
+Lemma Qcmult_lt_l s p q : 0 < s -> p < q -> s * p < s * q.
+Proof. intros Hs H. rewrite (Qcmult_comm s p), (Qcmult_comm s q). apply Qcmult_lt_compat_r; assumption. Qed.
+
+Lemma div_mul_cancel d k : k <> 0 -> d / k * k = d.
+Proof. intros H. field. exact H. Qed.
+
+Lemma step_pos a b k : a < b -> (1 <= k)%nat -> 0 < (b - a) / qn k.
+Proof.
+  intros Hab Hk. apply (pos_of_mul _ (qn k) (b - a)); [apply div_mul_cancel, qn_ne0, Hk | apply qn_pos, Hk |].
+  apply Qclt_minus_iff in Hab. exact Hab.
+Qed.
+
+(* w/(n+1) <= w/n for w >= 0 *)
+Lemma div_antitone w n : 0 <= w -> (1 <= n)%nat -> w / qn (S n) <= w / qn n.
+Proof.
+  intros Hw Hn.
+  assert (Hn0 : qn n <> 0) by (apply qn_ne0; lia).
+  assert (Hs0 : qn (S n) <> 0) by (apply qn_ne0; lia).
+  apply (Qcmult_lt_0_le_reg_r _ _ (qn n * qn (S n))).
+  - replace 0 with (0 * qn (S n)) by ring. apply Qcmult_lt_compat_r; apply qn_pos; lia.
+  - replace (w / qn (S n) * (qn n * qn (S n))) with (qn n * w) by (field; exact Hs0).
+    replace (w / qn n * (qn n * qn (S n))) with (qn (S n) * w) by (field; exact Hn0).
+    apply Qcmult_le_compat_r; [apply Qclt_le_weak, qn_lt; lia | exact Hw].
+Qed.
+
+Lemma round12q_mono p q : p <= q -> round12q p <= round12q q.
+Proof.
+  intros H. unfold round12q, Qcle, Q2Qc; cbn [this]. rewrite !Qred_correct.
+  apply Qmult_le_compat_r; [|discriminate].
+  rewrite <- Zle_Qle. apply Qfloor_resp_le. apply Qplus_le_compat; [|apply Qle_refl].
+  apply Qmult_le_compat_r; [exact H | discriminate].
+Qed.
+Local Close Scope Qc_scope.
+
+(* ---------------- the laws hold in the instance ---------------- *)
+Notation xlt := (lt xq xltb).
+Notation xle := (le xq xltb).
+Notation xfinite := (finite xq xis_nan xis_inf).
+
+Lemma xfinite_fin x : xfinite x -> exists q, x = Fin q.
+Proof. intros [H _]. destruct x as [q| |]; [exists q; reflexivity | discriminate | discriminate]. Qed.
+
+Lemma xlt_fin a b : xlt (Fin a) (Fin b) <-> (a < b)%Qc.
+Proof.
+  unfold lt; cbn. destruct (Qclt_le_dec a b) as [H|H]; split; auto; try discriminate.
+  intros H'. exfalso. exact (Qcle_not_lt _ _ H H').
+Qed.
+
+Lemma xle_fin a b : xle (Fin a) (Fin b) <-> (a <= b)%Qc.
+Proof.
+  unfold le; cbn. destruct (Qclt_le_dec b a) as [H|H]; split; auto; try discriminate.
+  intros H'. exfalso. exact (Qcle_not_lt _ _ H' H).
+Qed.
+
+Lemma xLinLaws : LinLaws xq xadd xsub xmul xdiv xltb xeqb (Fin 0%Qc) xis_nan xis_inf xof_nat.
+Proof.
+  constructor.
+  - intros a b x Fa Fb H1 H2. destruct (xfinite_fin a Fa) as [a' ->]. destruct (xfinite_fin b Fb) as [b' ->].
+    destruct x as [q| |]; [split; reflexivity | discriminate H2 | discriminate H1].
+  - intros a b k i Fa Fb Hab Hi Hk. destruct (xfinite_fin a Fa) as [a' ->]. destruct (xfinite_fin b Fb) as [b' ->].
+    apply xlt_fin in Hab. unfold lin_pt; cbn. apply xlt_fin.
+    pose proof (step_pos a' b' k Hab ltac:(lia)) as Hs.
+    replace a' with (a' + 0)%Qc at 1 by ring. apply Qcplus_lt_l.
+    replace 0%Qc with (((b' - a') / qn k) * qn 0)%Qc by (rewrite qn_0; ring).
+    apply Qcmult_lt_l; [exact Hs | apply qn_lt; lia].
+  - intros a b k i Fa Fb Hab Hi Hk. destruct (xfinite_fin a Fa) as [a' ->]. destruct (xfinite_fin b Fb) as [b' ->].
+    apply xlt_fin in Hab. unfold lin_pt; cbn. apply xlt_fin.
+    pose proof (step_pos a' b' k Hab ltac:(lia)) as Hs.
+    replace b' with (a' + ((b' - a') / qn k) * qn k)%Qc at 2 by (field; apply qn_ne0; lia).
+    apply Qcplus_lt_l, Qcmult_lt_l; [exact Hs | apply qn_lt; lia].
+  - intros a b k i j Fa Fb Hab Hi Hij Hk. destruct (xfinite_fin a Fa) as [a' ->]. destruct (xfinite_fin b Fb) as [b' ->].
+    apply xlt_fin in Hab. unfold lin_pt; cbn. apply xlt_fin.
+    pose proof (step_pos a' b' k Hab ltac:(lia)) as Hs.
+    apply Qcplus_lt_l, Qcmult_lt_l; [exact Hs | apply qn_lt; lia].
+  - intros a b m Fa Fb Hab Hm. destruct (xfinite_fin a Fa) as [a' ->]. destruct (xfinite_fin b Fb) as [b' ->].
+    apply xlt_fin in Hab. cbn. pose proof (step_pos a' b' m Hab Hm) as Hs.
+    destruct (Qc_eq_dec ((b' - a') / qn m) 0) as [E|E]; [|reflexivity].
+    rewrite E in Hs. exfalso. exact (Qclt_irrefl _ Hs).
+  - intros a b m Fa Fb. destruct (xfinite_fin a Fa) as [a' ->]. destruct (xfinite_fin b Fb) as [b' ->].
+    unfold np_pt; cbn. f_equal. rewrite qn_0. ring.
+  - intros a b m i j Fa Fb Hab Hij Hj. destruct (xfinite_fin a Fa) as [a' ->]. destruct (xfinite_fin b Fb) as [b' ->].
+    apply xlt_fin in Hab. unfold np_pt; cbn. apply xlt_fin.
+    pose proof (step_pos a' b' m Hab ltac:(lia)) as Hs.
+    apply Qcplus_lt_r, Qcmult_lt_compat_r; [exact Hs | apply qn_lt; lia].
+  - intros a b m i Fa Fb Hab Hi. destruct (xfinite_fin a Fa) as [a' ->]. destruct (xfinite_fin b Fb) as [b' ->].
+    apply xlt_fin in Hab. unfold np_pt; cbn. apply xlt_fin.
+    pose proof (step_pos a' b' m Hab ltac:(lia)) as Hs.
+    replace b' with (qn m * ((b' - a') / qn m) + a')%Qc at 2 by (field; apply qn_ne0; lia).
+    apply Qcplus_lt_r, Qcmult_lt_compat_r; [exact Hs | apply qn_lt; lia].
+Qed.
+
+(* ---------------- key_antitone holds in the instance ---------------- *)
+Notation xlseq_c := (lseq_c xq xmul xdiv xof_nat).
+Notation xlseq_q := (lseq_q xq xmul xdiv PInf xof_nat).
+
+Lemma xlseq_c_fin l n : (1 <= n)%nat -> xlseq_c (Fin l) n = Fin (l / qn n)%Qc.
+Proof.
+  intros Hn. destruct n as [|n]; [lia|]. clear Hn. induction n as [|n IH].
+  - cbn. f_equal. rewrite qn_1. field. exact Q_apart_0_1.
+  - destruct n as [|n].
+    + reflexivity.
+    + change (xlseq_c (Fin l) (S (S (S n)))) with
+        (xdiv (xmul (xlseq_c (Fin l) (S (S n))) (xof_nat (S (S n)))) (xof_nat (S (S (S n))))).
+      rewrite IH. cbn. f_equal. field. split; apply qn_ne0; lia.
+Qed.
+
+Lemma xlseq_c_inf l0 n : xis_inf l0 = true -> xis_inf (xlseq_c l0 n) = true.
+Proof.
+  intros H. destruct n as [|n]; [exact H|]. induction n as [|n IH]; [exact H|].
+  destruct n as [|n].
+  - destruct l0; [discriminate | reflexivity | reflexivity].
+  - change (xlseq_c l0 (S (S (S n)))) with
+      (xdiv (xmul (xlseq_c l0 (S (S n))) (xof_nat (S (S n)))) (xof_nat (S (S (S n))))).
+    destruct (xlseq_c l0 (S (S n))); [discriminate | reflexivity | reflexivity].
+Qed.
+
+Lemma xlseq_q_inf n : xlseq_q n = PInf.
+Proof.
+  destruct n as [|n]; [reflexivity|]. induction n as [|n IH]; [reflexivity|].
+  change (xlseq_q (S (S n))) with (xdiv (xmul (xlseq_q (S n)) (xof_nat (S n))) (xof_nat (S (S n)))).
+  rewrite IH. reflexivity.
+Qed.
+
+Section XQKey.
+  Variable P : params xq.
+  Variable s : st xq.
+  Notation xwf := (wf xq xltb xeqb P).
+  Notation xivals := (ivals xq xeqb P s).
+  Notation xkey_of := (key_of xq xsub xmul xdiv xeqb PInf xis_nan xis_inf xround12 xof_nat s).
+  Notation xsub_loss := (sub_loss xq xmul xdiv xeqb PInf xof_nat s).
+  Hypothesis W : xwf s.
+  Hypothesis Flo : xfinite (lo P).
+  Hypothesis Fhi : xfinite (hi P).
+  (* the x-scale is a positive number, the stored losses are non-negative (or infinite) *)
+  Hypothesis Hsx : exists x, sx s = Fin x /\ (0 < x)%Qc.
+  Hypothesis Hnonneg : forall iv l, In (iv, Fin l) (losc s) -> (0 <= l)%Qc.
+
+  Lemma xq_key_form iv : In iv xivals ->
+    exists w, (0 <= w)%Qc /\ forall n, (1 <= n)%nat -> xkey_of iv n = Fin (round12q (w / qn n)%Qc).
+  Proof.
+    intros Hiv. destruct iv as [a b]. destruct Hsx as (x & Ex & Hx).
+    pose proof (ext_sorted xq xadd xsub xmul xdiv xltb xeqb (Fin 0%Qc) xis_nan xis_inf xround12 P xOrderLaws s W) as Hs.
+    destruct (pairs_in xq _ a b Hiv) as [Ia Ib].
+    pose proof (pairs_lt xq xltb _ a b Hs Hiv) as Hab.
+    destruct (xfinite_fin a (ext_fin xq xadd xsub xmul xdiv xltb xeqb (Fin 0%Qc) xis_nan xis_inf xof_nat P xOrderLaws xLinLaws s W Flo Fhi a Ia)) as [a' ->].
+    destruct (xfinite_fin b (ext_fin xq xadd xsub xmul xdiv xltb xeqb (Fin 0%Qc) xis_nan xis_inf xof_nat P xOrderLaws xLinLaws s W Flo Fhi b Ib)) as [b' ->].
+    apply xlt_fin in Hab.
+    set (w := ((b' - a') / x)%Qc).
+    assert (Hw : (0 <= w)%Qc).
+    { apply Qclt_le_weak. apply (pos_of_mul w x (b' - a')%Qc); [|exact Hx|].
+      - unfold w. field. intros C. rewrite C in Hx. exact (Qclt_irrefl _ Hx).
+      - apply Qclt_minus_iff in Hab. exact Hab. }
+    unfold key_of, sub_loss.
+    destruct (lget xeqb (Fin a', Fin b') (losc s)) as [l0|] eqn:El.
+    - destruct (xis_inf l0) eqn:Ei.
+      + (* stored loss infinite: ranked by relative width / n *)
+        exists w. split; [exact Hw|]. intros n Hn. destruct n as [|[|n]]; [lia | |].
+        * unfold finite_loss2. rewrite Ei, Ex. cbn. f_equal. f_equal. fold w. rewrite qn_1. field. exact Q_apart_0_1.
+        * unfold finite_loss3. rewrite (xlseq_c_inf l0 (S (S n)) Ei), Ex. cbn. reflexivity.
+      + destruct l0 as [l| |]; try discriminate.
+        exists l. split.
+        * apply (Hnonneg (Fin a', Fin b')).
+          (* lget = Some -> In *)
+          clear -El. induction (losc s) as [|[k v] m IH]; [discriminate|]. cbn [lget] in El.
+          destruct (ival_eqb xeqb (Fin a', Fin b') k) eqn:E.
+          -- left. apply (ival_eqb_eq xq xltb xeqb xOrderLaws) in E. inversion El; subst. reflexivity.
+          -- right. apply IH; exact El.
+        * intros n Hn. destruct n as [|[|n]]; [lia | |].
+          -- unfold finite_loss2. cbn. f_equal. f_equal. rewrite qn_1. field. exact Q_apart_0_1.
+          -- unfold finite_loss3. rewrite (xlseq_c_fin l (S (S n))) by lia. cbn. reflexivity.
+    - exists w. split; [exact Hw|]. intros n Hn. destruct n as [|[|n]]; [lia | |].
+      + unfold finite_loss3. rewrite Ex. cbn. reflexivity.
+      + unfold finite_loss3. rewrite xlseq_q_inf, Ex. cbn. reflexivity.
+  Qed.
+
+  Theorem xq_key_antitone :
+    key_antitone xq xsub xmul xdiv xltb xeqb PInf xis_nan xis_inf xround12 xof_nat P s.
+  Proof.
+    intros iv n Hiv Hn. destruct (xq_key_form iv Hiv) as (w & Hw & Hk).
+    rewrite !Hk by lia. apply xle_fin. apply round12q_mono, div_antitone; assumption.
+  Qed.
+End XQKey.
+
+(* ---------------- executable side conditions for the instance ---------------- *)
+Definition xq_okb (P : params xq) (s : st xq) : bool :=
+  wfb xq xltb xeqb P s
+  && negb (xis_inf (lo P)) && negb (xis_inf (hi P))
+  && match sx s with Fin x => xltb (Fin 0%Qc) (Fin x) | _ => false end
+  && forallb (fun e : ival xq * xq => match snd e with Fin l => negb (xltb (Fin l) (Fin 0%Qc)) | _ => true end) (losc s).
+
+Lemma xq_okb_spec P s : xq_okb P s = true ->
+  wf xq xltb xeqb P s /\ xfinite (lo P) /\ xfinite (hi P) /\
+  (exists x, sx s = Fin x /\ (0 < x)%Qc) /\
+  (forall iv l, In (iv, Fin l) (losc s) -> (0 <= l)%Qc).
+Proof.
+  unfold xq_okb. rewrite !andb_true_iff, !negb_true_iff. intros ((((H1 & H2) & H3) & H4) & H5).
+  split; [apply (wfb_wf xq xadd xsub xmul xdiv xltb xeqb (Fin 0%Qc) xis_nan xis_inf xround12 P xOrderLaws s); exact H1|].
+  split; [split; [exact H2 | reflexivity]|]. split; [split; [exact H3 | reflexivity]|]. split.
+  - destruct (sx s) as [x| |]; try discriminate. exists x. split; [reflexivity|]. apply xlt_fin; exact H4.
+  - intros iv l Hin. rewrite forallb_forall in H5. specialize (H5 _ Hin). cbn [snd] in H5.
+    apply negb_true_iff in H5. apply xle_fin. exact H5.
+Qed.
